@@ -6,9 +6,10 @@
 // behaviour-preserving rewrites of that plumbing do not change the trace.
 //
 // Input:  case <id> cb <adapter> <T> <alloc> [<conv-shape> <To> <behaviour> [hlp]]
-//           adapter: cbawait | cbref | cbawt | cbwrap | mkprom | discard | conv | callfn | callawt
+//           adapter: cbawait | cbref | cbawt | cbwrap | mkprom | mkcb | discard | conv | callfn | callawt
 //                    (cbawt: callback_await on an awaiter object obtained with retrieve_awaiter(); cbwrap: on an
-//                     awaiter_wrapper around it; callawt: call_fn_awaiter subscribed by hand: ready() / subscribe / resume)
+//                     awaiter_wrapper around it; callawt: call_fn_awaiter subscribed by hand: ready() / subscribe / resume;
+//                     mkcb: a heap / storage future_with_cb attached to the factory's future with future_with_cb::operator<<)
 //           T: int | void | intref (the adapter awaits a future<int>, but the source factory returns a future<int&>, which
 //              ReturnsFuture admits and which is constructed in place inside the adapter's future<int>)
 //           alloc: heap | stor | none
@@ -17,8 +18,10 @@
 //         g [self value <v> | self exc <c> | self drop]      thread 0: registers, then (self) invokes the promise itself
 //         pre value <v> | pre exc <c> | pre drop             the factory resolves the promise before it returns
 //         imm value <v> | imm exc <c> | imm drop             the factory returns future<T>::set_value/.. (no promise)
-//         fthrow <c>                                         (conv, callfn) the factory THROWS instead of returning a future: future<T>::result_of
-//                                                            catches, re-creates the future and resolves it with the exception (not traced, like imm)
+//         fthrow <c>                                         the factory THROWS instead of returning a future.  conv, callfn, mkcb: future<T>::result_of
+//                                                            catches, re-creates the future and resolves it with the exception (not traced, like imm);
+//                                                            cbawait: the awaitable is constructed inside the helper coroutine's try block, the callback
+//                                                            receives the exception from its catch branch (no future ever exists)
 //         r value <v> | r exc <c> | r drop                   resolver thread: invokes the shared promise
 //         d                                                  thread destroying the promise after all invocations
 //         read get|star|bool|not                             how the callback_await callback inspects its await_result:
@@ -27,7 +30,8 @@
 //                                                            the helper coroutine is only queued and starts after the caller's full
 //                                                            expression; `caller-continues` marks the caller carrying on, `dead-arg` an
 //                                                            awaited operation constructed from an argument that no longer exists
-//         cbthrow                                            contract violation: the callback_await callback throws (first call)
+//         cbthrow                                            the callback_await callback throws after it has looked at its result (first call): the
+//                                                            exception is ignored like any result of a detached coroutine, the callback is NOT called again
 //         sched ...
 //         round                                              the next awaited operation on the SAME helper object (future_conv and
 //                                                            call_fn_future_awaiter are re-armed with <<); own g/r/d/pre/imm/sched lines
@@ -504,7 +508,7 @@ static void setup_simple(Runner<T, PT> &R, const std::string &adapter, const std
                 trk::Off o;
                 env->cb_calls++;
                 env->log("cb " + observe_result(r, env->read));
-                if (env->cb_throws && env->cb_calls == 1) throw test_exc(88);   // outside the contract
+                if (env->cb_throws && env->cb_calls == 1) throw test_exc(88);
             };
             // rvalues: callback_await stores an lvalue callback by reference (the caller would have to keep it alive);
             // the factory is a stateful temporary of the call's full expression
@@ -592,6 +596,27 @@ static void setup_simple(Runner<T, PT> &R, const std::string &adapter, const std
             R.src.publish(std::move(*p));
         };
       }
+    } else if (adapter == "mkcb") {
+        // future_with_cb driven directly: the callback object is created first and then attached to the future a source
+        // factory returns, `*obj << factory` (future_with_cb::operator<<).  The object owns itself: its resume function
+        // calls the callback and deletes it, so nothing is touched after the registration.
+        R.reg = [&R, env, alloc, factory] {
+            auto cb = [env](future<T> &f) {
+                trk::Off o;
+                env->cb_calls++;
+                env->log("cb " + observe_future(f));
+            };
+            using CB = decltype(cb);
+            R.register_tracked([&] {
+                if (alloc == "stor") {
+                    auto *f = new (R.stor) future_with_cb_no_alloc<T, cstor, CB>(std::move(cb));
+                    (*f) << factory;
+                } else {
+                    auto *f = new future_with_cb<T, CB>(std::move(cb));
+                    (*f) << factory;
+                }
+            });
+        };
     } else if (adapter == "discard") {
         R.reg = [&R, factory] { R.register_tracked([&] { discard(factory); }); };
     } else if (adapter == "callfn") {
